@@ -3,6 +3,8 @@ CONSTANT NTypes = 2
 CONSTANT Level = 1
 CONSTANT DropRequiredAtCut = FALSE
 CONSTANT ShiftItemsAtCut = FALSE
+CONSTANT KeysOptDefault = FALSE
+CONSTANT OptionalOnlyByRule = FALSE
 INVARIANT Emit
 INVARIANT MeshModelAgrees
 INVARIANT ExampleValid
